@@ -18,6 +18,24 @@ FamilyDeep == { << Fact("f"), Fact("g"), Fact("q"), Rule("q", << L(1, "f"), L(0,
                   ps \in { << Rule("p", << L(1, "q") >>), Rule("p", << L(0, "f") >>), Rule("p", << L(1, "g"), L(1, "q") >>) >>,
                            << Rule("p", << L(0, "q"), L(1, "g") >>) >> },
                   rs \in ClauseSeqs("r", RB) }
+\* positive recursion between p and q (cycles of length 1 and 2), with facts and stratified negation on top
+PBc == { << L(1, "q") >>, << L(1, "f") >>, << L(1, "q"), L(1, "g") >>, << L(1, "g"), L(1, "q") >>, << L(1, "p") >> }
+QBc == { << L(1, "p") >>, << L(1, "g") >>, << L(1, "p"), L(1, "f") >>, << L(0, "f"), L(1, "p") >> }
+FamilyCyc == { << Fact("f"), Fact("g") >> \o ps \o qs : ps \in ClauseSeqs("p", PBc), qs \in ClauseSeqs("q", QBc) }
+RBc == { << L(0, "p") >>, << L(0, "q"), L(1, "f") >>, << L(1, "q"), L(0, "p") >> }
+FamilyCycNeg == { << Fact("f"), Fact("g") >> \o ps \o qs \o rs :
+                    ps \in { << Rule("p", << L(1, "q") >>), Rule("p", << L(1, "f") >>) >>, << Rule("p", << L(1, "q"), L(1, "g") >>), Rule("p", << L(1, "f") >>) >> },
+                    qs \in { << Rule("q", << L(1, "p") >>) >>, << Rule("q", << L(1, "g") >>), Rule("q", << L(1, "p"), L(1, "f") >>) >> },
+                    rs \in ClauseSeqs("r", RBc) }
+\* cycles THROUGH negation: the engine must raise NegativeCycle or answer; never a wrong two-valued answer
+FamilyNegLoop == { << Fact("f"), Fact("g") >> \o ps \o qs :
+                     ps \in ClauseSeqs("p", { << L(0, "q") >>, << L(1, "f") >>, << L(1, "q"), L(1, "g") >>, << L(0, "q"), L(1, "f") >> }),
+                     qs \in ClauseSeqs("q", { << L(1, "p") >>, << L(0, "p") >>, << L(1, "g") >>, << L(1, "p"), L(0, "f") >> }) }
+\* three predicates on one cycle, a deterministic fact t, a contradictory conjunction (g, \+g): the shapes of KF1
+B3(x) == { << L(1, x) >>, << L(1, "g"), L(0, "g") >>, << L(1, x), L(1, "f") >>, << L(1, "t") >>, << L(1, "g"), L(1, x) >> }
+Family3 == { << Fact("f"), Fact("g"), Fact("t") >> \o as \o bs \o cs :
+               as \in ClauseSeqs("p", B3("r")), bs \in { << Rule("q", << L(1, "p") >>) >>, << Rule("q", << L(1, "p"), L(1, "f") >>) >> },
+               cs \in ClauseSeqs("r", B3("q")) }
 SmallPrograms == FamilyPQ
 AllPrograms   == FamilyPQ \cup FamilyDeep
 QS2 == { << "p" >>, << "p", "q" >>, << "q", "p" >> }
@@ -33,7 +51,12 @@ Proj(P, m) ==
     [] m.t = "r" -> [ t |-> "r", k |-> "", p |-> "", a |-> m.obj, node |-> m.key, last |-> IF m.last THEN 1 ELSE 0 ]
     [] m.t = "c" -> [ t |-> "c", k |-> "", p |-> "", a |-> m.obj, node |-> 0, last |-> 0 ]
 
-Export == Done => PrintT(<<"HIST", ToJson([ prog |-> prog, queries |-> queries, sched |-> sched,
-                                             log |-> [ i \in DOMAIN log |-> Proj(prog, log[i]) ],
-                                             results |-> results, nodes |-> fb.nodes ])>>)
+Export == (Done \/ Failed \/ Stuck) =>
+            PrintT(<<"HIST", ToJson([ prog |-> prog, queries |-> queries, sched |-> sched,
+                                      log |-> [ i \in DOMAIN log |-> Proj(prog, log[i]) ],
+                                      results |-> results, nodes |-> fb.nodes,
+                                      err |-> IF Stuck THEN "InvalidEngineState" ELSE err ])>>)
+ShowClause(c) == IF c.f THEN <<c.h>> ELSE <<c.h, ":-", [ j \in DOMAIN c.b |-> IF c.b[j].s = 1 THEN c.b[j].a ELSE "not " \o c.b[j].a ]>>
+Alias == [ program |-> [ i \in DOMAIN prog |-> ShowClause(prog[i]) ], queries |-> queries, results |-> results, err |-> err,
+           nodes |-> fb.nodes, cache |-> cache, nmsgs |-> Len(msgs), popped |-> IF log = << >> THEN << >> ELSE Proj(prog, log[Len(log)]) ]
 =============================================================================
